@@ -103,6 +103,7 @@ class Ctx:
         self.rules_run = []
         self.notes = []
         self.cur = None
+        self.tick_flat = False   # True inside the scratch run of a tick rule whose tick part is decided on path traces
 
     def ok(self, site, detail=""):
         self.oks.append((self.cur, site, detail))
@@ -128,12 +129,13 @@ class Ctx:
         self.rules_run.append(rule_id)
         n_before = len(self.oks) + len(self.violations) + len(self.inconclusive)
         try:
-            if rule_id in TICK_RULES:
-                why = tick_arch_reason(self.facts)
-                if why:
-                    raise Inconclusive("the tick protocol has been re-architected (%s): this rule is written for `tick` calling `tick_inner(canceled: bool, ..)` twice with "
-                                       "`State::canceled()` / `State::cleared()` as the state tests, and does not decide the new shape" % why)
-            fn(self, *args)
+            why = tick_arch_reason(self.facts) if rule_id in TICK_RULES else None
+            if os.environ.get("VERIF_TICK_FLAT") and rule_id in TICK_RULES:
+                why = why or "forced by VERIF_TICK_FLAT (checker self-test)"
+            if why:
+                self._tick_fallback(rule_id, fn, args, why)
+            else:
+                fn(self, *args)
         except Inconclusive as e:
             self.fail_closed(str(e))
         except Exception as e:  # analysis bug or unexpected fact shape: fail closed, never a verdict
@@ -145,6 +147,49 @@ class Ctx:
         self.cur = None
 
 
+    def _tick_fallback(self, rule_id, fn, args, why):
+        """The two-pass tick / tick_inner(canceled: bool) structure is gone.  The tick part of the rule is decided on the
+        path traces of the flattened tick (rules/ticktrace.py): protocol rules on every path, and equality of the
+        traces with those of the reference tree; the parts of the rule that concern other functions run as they are."""
+        import ticktrace
+        # parts of the rule that do not look at tick: run the rule in a scratch context, keep what concerns other bodies
+        sub = Ctx(self.prop, self.facts, self.tier)
+        sub.cur = rule_id
+        sub.tick_flat = True
+        try:
+            fn(sub, *args)
+        except Exception:
+            pass
+        tick_bodies = set()
+        for b_ in self.facts.bodies_of("nucleo"):
+            if b_["path"].startswith("Nucleo::<T>::tick") or str(b_.get("root") or "").startswith("Nucleo::<T>::tick"):
+                tick_bodies.add(b_["path"])
+        def about_tick(txt):
+            return "Nucleo::<T>::tick" in txt or any(p_ in txt for p_ in tick_bodies)
+        for v in sub.violations:
+            k = v["key"].split("|", 1)[1] if "|" in v["key"] else v["key"]
+            if not about_tick(k) and not about_tick(str(v["site"])):
+                self.violations.append(v)
+        for r_, site_, detail in sub.oks:
+            if not about_tick(str(site_)):
+                self.oks.append((r_, site_, detail))
+        a = ticktrace.analysis(self.facts)
+        vs = a["violations"].get(rule_id, [])
+        site_ = "src/lib.rs (Nucleo::<T>::tick, flattened: %d paths)" % len(a["paths"])
+        for key, msg in vs:
+            self.violation(key, site_, msg)
+        if vs:
+            return
+        if not a["diffs"]:
+            self.ok(site_, "tick re-architected (%s): decided on the path traces of the flattened tick -- %d feasible paths (%d raw), protocol rules hold on each, "
+                    "and every path has the same protocol events and status as the reference tree's path(s) under the same assumptions (%d reference paths)"
+                    % (why, len(a["paths"]), a["raw"], a["ref"]))
+            return
+        j, ours, ref, _, _ = a["diffs"][0]
+        raise Inconclusive("the tick protocol has been re-architected (%s) and its flattened path traces differ from the reference tree's on %d path pair(s) in a way no protocol rule "
+                           "of this check classifies; first difference: this tree does %s where the reference does %s" % (why, len(a["diffs"]), ticktrace.fmt(ours)[:160], ticktrace.fmt(ref)[:160]))
+
+
 # Rules about the tick / tick_inner / worker hand-over protocol.  They follow the two-phase structure of the code as it
 # is (tick -> tick_inner(true, ..) / tick_inner(false, ..), guarded by State::canceled()/cleared()); helper extraction,
 # renames, reordering and local rewrites are normalised away, but when that structure itself is gone (phases merged
@@ -153,7 +198,7 @@ class Ctx:
 TICK_RULES = {
     "C06.update-guard", "C12.stale-guard", "C12.stream-switch", "C13.arm-under-lock", "C13.disarm-first", "C13.cancel-writers",
     "C19.cancel-writers", "C19.update-guard", "C19.changed-guards-mutation", "C19.running-guards-spawn", "C19.running-formula",
-    "C19.status-lattice", "C19.pattern-handover", "C20.refs-table", "C20.transitions", "C20.holders",
+    "C19.status-lattice", "C19.pattern-handover", "C20.transitions",
 }
 _TICK_ARCH = {}
 
